@@ -257,7 +257,7 @@ pub fn filters() -> Vec<Filt> {
 pub fn cases(tier: Tier) -> Vec<Case> {
     let paths: Vec<Vec<&str>> = vec![vec!["html"], vec!["html", "body"], vec!["html", "body", "div"], vec!["html", "body", "div", "section"], vec!["html", "head"]];
     let inner_lists = filler_lists(tier.pick(2, 3));
-    let side_lists = filler_lists(2);
+    let side_lists = filler_lists(tier.pick(1, 2));
     let fl = filters();
     let mut out = Vec::new();
     for path in &paths {
